@@ -537,7 +537,11 @@ class _Generator(Generator):
             '',
             '{} = {}[{}];'.format(unique_tmp_addition_mask, unique_addition_mask,
                                   addition_mask_length - 1),
-            '{} = 0x{:02x};'.format(unique_mask, 0x80 >> (len(type_.additions) % 8)),
+            # With a multiple of eight known additions the first
+            # unknown presence bit is in the next octet.
+            '{} = 0x{:02x};'.format(
+                unique_mask,
+                (0x80 >> (len(type_.additions) % 8)) & 0x7f),
             '{} = 0;'.format(unique_unknown_addition_bits),
             '',
             'for ({i} = {first}; {i} < {bits}; {i}++) {{'.format(
